@@ -84,6 +84,7 @@ func runA(hist []Op) (key string, p *problem) {
 	h := &rec{}
 	tp.RegisterHandler("t", h)
 	m := &modelA{levels: map[string]alert.Level{}}
+	uLevels := map[string]alert.Level{}
 	t0 := time.Date(2000, 1, 1, 0, 0, 0, 0, time.UTC)
 	for i, o := range hist {
 		switch o.Kind {
@@ -93,6 +94,10 @@ func runA(hist []Op) (key string, p *problem) {
 			}
 		case "update":
 			tp.UpdateEvent("t", alert.EventState{ID: o.ID, Level: o.Level})
+			// a second topic that nothing but UpdateEvent ever touches (what a restarting alert node does to a topic
+			// that has no handler and no stored state yet): the first update creates it
+			tp.UpdateEvent("u", alert.EventState{ID: o.ID, Level: o.Level})
+			uLevels[o.ID] = o.Level
 		case "delete":
 			tp.DeleteTopic("t")
 			// handlers of a deleted topic are gone: re-register the recorder so later collects are observed
@@ -147,6 +152,23 @@ func runA(hist []Op) (key string, p *problem) {
 		l, want := m.levels[id]
 		if ok != want || (ok && e.Level != l) {
 			return "", &problem{"event-state", fmt.Sprintf("EventState(%s) = (%s,%v) want (%s,%v) after %v", id, e.Level, ok, l, want, hist)}
+		}
+	}
+	if len(uLevels) > 0 {
+		umax := alert.OK
+		for _, l := range uLevels {
+			if l > umax {
+				umax = l
+			}
+		}
+		us, ok := tp.TopicState("", alert.OK)["u"]
+		if !ok || us.Level != umax {
+			return "", &problem{"updated-topic-state", fmt.Sprintf("topic u, only ever touched by UpdateEvent, is listed=%v with level %s, want level %s after %v", ok, us.Level, umax, hist)}
+		}
+		for id, l := range uLevels {
+			if e, ok := tp.EventState("u", id); !ok || e.Level != l {
+				return "", &problem{"updated-topic-state", fmt.Sprintf("EventState(u,%s) = (%s,%v) want %s after %v", id, e.Level, ok, l, hist)}
+			}
 		}
 	}
 	var log []string
@@ -319,7 +341,8 @@ func concCases() []ConcCase {
 }
 
 type Replay struct {
-	HistB []BOp
+	HistAgg []BOp
+	HistB   []BOp
 	Hist  []Op
 	Conc  *ConcCase
 	Picks []int
@@ -341,6 +364,13 @@ func TestCheck(t *testing.T) {
 		var rp Replay
 		if err := rep.LoadReplay(&rp); err != nil {
 			t.Fatal(err)
+		}
+		if len(rp.HistAgg) > 0 {
+			if p := bubbleAgg(t, rp.HistAgg); p != nil {
+				r.Violation("Agg-"+p.kind, p.msg, rp)
+			}
+			r.Add("evaluations", 1)
+			return
 		}
 		if len(rp.HistB) > 0 {
 			if p := bubbleB(t, rp.HistB); p != nil {
@@ -451,6 +481,39 @@ func TestCheck(t *testing.T) {
 		}
 	}
 	recB(nil)
+
+	// part B2: the aggregate handler over several intervals: all histories over collect x tick up to the depth that end in a tick
+	depthAgg := 5
+	if rep.Thorough() {
+		depthAgg = 6
+	}
+	aops := aggOps()
+	na := 0
+	var recAgg func(hist []BOp)
+	recAgg = func(hist []BOp) {
+		if len(hist) > 0 && hist[len(hist)-1].Kind == "tick" {
+			na++
+			if na%nshards == shard && !r.Expired() {
+				p := bubbleAgg(t, hist)
+				r.Add("evaluations", 1)
+				r.Add("transitions", int64(len(hist)))
+				r.Add("aggregate_histories", 1)
+				if p != nil {
+					r.Violation("Agg-"+p.kind, p.msg, Replay{HistAgg: hist})
+				}
+			}
+		}
+		if len(hist) == depthAgg {
+			return
+		}
+		for _, o := range aops {
+			if o.Kind == "tick" && len(hist) > 0 && hist[len(hist)-1].Kind == "tick" {
+				continue // two ticks in a row: the second interval is empty
+			}
+			recAgg(append(append([]BOp(nil), hist...), o))
+		}
+	}
+	recAgg(nil)
 
 	// part C
 	bound := 2
